@@ -292,8 +292,8 @@ def keep_drop(repo, chk):
     k, v = tr_loop.target.elts[0].id, tr_loop.target.elts[1].id
     chk.expect(kt == expected_term(m, "f'{" + col + "}{" + k + "}'") or kt == expected_term(m, f'{col} + {k}'), 'C12.6a', 'R12', fn.site(em), ast.unparse(key), 'column name = feature name followed by the transformer name', f'the emitted column must be named <feature><transformer>; found {show(kt)[:80]}')
     at = term_of(fn, em.value, inline=True)
-    chk.expect(at in (expected_term(m, f'eval({v}).astype(str)'), expected_term(m, f'eval({v}).astype("str")')), 'C12.6b', 'R15', fn.site(arrdef[0]) if arrdef else fn.site(em), A, 'values = the formula of that transformer evaluated, as text',
-               f'the emitted values must be eval(<formula of this transformer>).astype(str); found {show(at)[:100]}')
+    chk.expect_term(at, [expected_term(m, f'eval({v}).astype(str)'), expected_term(m, f'eval({v}).astype("str")')], 'C12.6b', 'R15', fn.site(arrdef[0]) if arrdef else fn.site(em), A, 'values = the formula of that transformer evaluated, as text',
+                    f'the emitted values must be eval(<formula of this transformer>).astype(str); found {show(at)[:100]}')
     xdefs = [d for d in own_nodes(fn.node) if isinstance(d, ast.Assign) and isinstance(d.targets[0], ast.Name) and d.targets[0].id == 'X']
     okx = len(xdefs) == 1 and term_of(fn, xdefs[0].value, inline=False) == expected_term(m, f'self.get_vals({frame}, {col})') and any(x is xdefs[0] for x in ast.walk(col_loop))
     chk.expect(okx, 'C12.6c', 'origin', fn.site(xdefs[0]) if xdefs else fn.site(), ast.unparse(xdefs[0]) if xdefs else 'X = self.get_vals(dataframe, column)', 'the formulas\' variable X is the numeric parse of the current feature',
